@@ -161,7 +161,7 @@ class State:
 
 
 class Walker:
-    def __init__(self, body, max_paths=20000, decide=None, stop_at=None, revisit=1, keep_switch=None):
+    def __init__(self, body, max_paths=20000, decide=None, stop_at=None, revisit=1, keep_switch=None, inline=None, depth=0):
         """decide(term) -> value or None: an oracle that fixes the outcome of a switch
         (used to restrict a walk to one row of a table); keep_switch(term)->bool says which
         undecided switches are recorded as decision events (default: all)."""
@@ -170,7 +170,10 @@ class Walker:
         self.decide = decide
         self.stop_at = stop_at
         self.revisit = revisit
+        self.inline = inline   # callable(path) -> Body to inline or None
+        self.depth = depth
         self.paths = []
+        self.finals = []       # final State of every path (parallel to self.paths)
         self.loop_written = {}   # header -> locals assigned in the loop
         self.loop_assigned = self._loops()  # header -> locals assigned or mutably borrowed in the loop
 
@@ -311,8 +314,14 @@ class Walker:
         self._walk(start, st)
         return self.paths
 
+    def run_from(self, st, start=0):
+        """Walk from a prepared state; returns [(events, final state)]."""
+        self._walk(start, st)
+        return list(zip(self.paths, self.finals))
+
     def _emit(self, st):
         self.paths.append(st.events)
+        self.finals.append(st)
         if len(self.paths) > self.max_paths:
             raise PathBudget("%s: more than %d paths" % (self.b.path, self.max_paths))
 
@@ -399,6 +408,52 @@ class Walker:
                     path = ("indirect", f)
                     targs = ""
                 st.events.append(("call", bb, path, args, t["s"], targs))
+                fb = fold_try_branch(path, args) if t.get("t") is not None and k == "call" else None
+                if fb is not None:
+                    dl, dproj = t["dest"]
+                    if not dproj:
+                        st.env[dl] = fb
+                    else:
+                        st.mem[self.place_addr(st, t["dest"])] = fb
+                    bb = t["t"]
+                    continue
+                callee = None
+                if self.inline is not None and isinstance(path, str) and self.depth < 2 and k == "call" and t.get("t") is not None:
+                    callee = self.inline(path)
+                    if callee is not None and callee.path == self.b.path:
+                        callee = None
+                if callee is not None:
+                    sub = Walker(callee, max_paths=64, inline=self.inline, depth=self.depth + 1)
+                    if not sub.loop_assigned:  # loop-free helpers only
+                        init = State()
+                        for ai, a in enumerate(args):
+                            init.env[ai + 1] = a
+                        init.mem = dict(st.mem)
+                        init.known = dict(st.known)
+                        try:
+                            results = sub.run_from(init)
+                        except PathBudget:
+                            results = None
+                        if results is not None and all(ev and ev[-1][0] in ("ret", "diverge", "unreachable") for ev, _ in results):
+                            for ev, fin in results:
+                                s2 = st.fork()
+                                tag = lambda e: (e[0], ("in", bb, e[1])) + tuple(e[2:]) if len(e) > 1 else e
+                                inner = [tag(e) for e in ev[:-1]]
+                                s2.events.extend(inner)
+                                s2.mem = dict(fin.mem)
+                                s2.known = dict(fin.known)
+                                last = ev[-1]
+                                if last[0] != "ret":
+                                    s2.events.append((last[0], ("in", bb, last[1])))
+                                    self._emit(s2)
+                                    continue
+                                dl, dproj = t["dest"]
+                                if not dproj:
+                                    s2.env[dl] = last[2]
+                                else:
+                                    s2.mem[self.place_addr(s2, t["dest"])] = last[2]
+                                self._walk(t["t"], s2)
+                            return
                 # a callee that receives `&mut X` may change X: forget what we know below X
                 for a in args:
                     if a[0] == "ref":
@@ -469,6 +524,21 @@ class Walker:
                 # infeasible otherwise-arms end in `unreachable` and are dropped by callers.
                 continue
             raise RuntimeError("unknown terminator " + k)
+
+
+def fold_try_branch(path, args):
+    """`Try::branch` of a value whose variant is known on this path (an aggregate built on the path, or the
+    `from_residual(..)` an inlined helper returned): the ControlFlow it yields is known too."""
+    if not isinstance(path, str) or not path.endswith("Try>::branch") or len(args) != 1:
+        return None
+    a = args[0]
+    if a[0] == "agg" and a[2] in ("Ok", "Some"):
+        return ("agg", "core::ops::ControlFlow", "Continue", tuple(a[3][:1]), 0)
+    if a[0] == "agg" and a[2] in ("Err", "None"):
+        return ("agg", "core::ops::ControlFlow", "Break", (a,), 1)
+    if a[0] == "call" and isinstance(a[2], str) and a[2].endswith("FromResidual>::from_residual") or (a[0] == "call" and isinstance(a[2], str) and "FromResidual" in a[2] and a[2].endswith("from_residual")):
+        return ("agg", "core::ops::ControlFlow", "Break", tuple(a[3][:1]), 1)
+    return None
 
 
 def forget(st, place):
@@ -600,6 +670,8 @@ def show(t, depth=0):
     if k == "ref":
         return "&" + show(t[1], depth + 1)
     if k == "call":
+        if isinstance(t[2], str) and t[2].endswith("Try>::branch") and len(t[3]) == 1:
+            return "%s(%s)@%d" % (short(t[2]), show(t[3][0], depth), t[1])  # `x?` is not a nesting level
         if depth > 4:
             return "%s(..)@%d" % (short(t[2]), t[1])
         return "%s(%s)@%d" % (short(t[2]), ", ".join(show(a, depth + 1) for a in t[3]), t[1])
